@@ -173,6 +173,19 @@ func (C11) Generate(c *Ctx, r *Rand, index int) *Scenario {
 		sc.WatchdogS = 3
 		sc.Meta["special"] = "lua-nonterminating-program"
 	}
+	if fi.Name == "lua" && sc.MetaString("special") == "" && rs.Chance(1, 30) {
+		// legal Lua whose result is not a tree: tables that contain themselves, shared tables
+		text = Pick(rs, []string{"t = {}; t.a = t; return t\n", "t = {}\nt.a = t\n", "local a = {}\nlocal b = {a}\na[1] = b\nreturn {x = a}\n",
+			"local s = {1, 2}\nreturn {a = s, b = s, c = {s, s}}\n", "local t = {}\nt[t] = 1\nreturn t\n", "return {[{}] = {}, [1.5] = 2, [true] = 3}\n"})
+		sc.Meta["input"] = "lua-table-graph"
+		sc.Meta["deep"] = true // no damage on top
+	}
+	if fi.Name == "props" && rs.Chance(1, 300) {
+		// a key path with an array index far beyond the data
+		text = Pick(rs, []string{"a.1000000000 = x\n", "id = " + id + "\nd.99999999999 = 1\n"})
+		sc.Meta["input"] = "huge-index-key"
+		sc.Meta["deep"] = true
+	}
 	if sc.MetaString("special") == "" && rs.Chance(1, 25) {
 		// not derived from a valid document at all
 		n := rs.Range(1, 200)
